@@ -810,7 +810,29 @@ func genWireUnknownDBI(g *Gen, n int) {
 	}
 }
 
+// genWireBlobs: damaged gzip containers as they could come from the bucket
+func genWireBlobs(g *Gen) {
+	valid := gz(plainOpts(g.R).encSnap(randSnap(g.R, false, false)))
+	for _, size := range []uint32{0xffffffff, 0x80000000, 0x7fffffff, 0x40000000, 1 << 20, 0} {
+		// the size trailer (last four bytes) lies
+		b := append([]byte{}, valid...)
+		binary.LittleEndian.PutUint32(b[len(b)-4:], size)
+		g.Emit("gzip-trailer", "prop.c08.blob "+hx(b))
+		// ... on a truncated stream
+		g.Emit("gzip-trailer", "prop.c08.blob "+hx(append(append([]byte{}, valid[:len(valid)/2]...), b[len(b)-4:]...)))
+		// ... on a header with nothing behind it
+		g.Emit("gzip-trailer", "prop.c08.blob "+hx(append(append([]byte{}, valid[:10]...), b[len(b)-8:]...)))
+	}
+	for i := 0; i < 6; i++ {
+		b := append([]byte{}, valid...)
+		b[g.R.Intn(len(b))] ^= byte(1 << uint(g.R.Intn(8))) // one flipped bit anywhere
+		g.Emit("gzip-bitflip", "prop.c08.blob "+hx(b))
+	}
+	g.Emit("gzip-valid", "prop.c08.blob "+hx(valid))
+}
+
 func genWireMalformed(g *Gen, n int) {
+	genWireBlobs(g)
 	vals := advValuesQuick
 	if g.Thorough() {
 		vals = advValues
